@@ -153,7 +153,7 @@ theorem parsers_silent_esc (cfg : Cfg) (st : PState) (hk : keyMatches cfg.keys [
   · left; rfl
   · left; rfl
   · left; rfl
-  · left; rfl
+  · left; unfold parseClipboardV; cases cfg.clipFixed <;> rfl
 
 /-- **lone_esc**: a lone ESC yields the Esc key once the timeout has passed (table without empty sequences) -/
 theorem lone_esc (cfg : Cfg) (st : PState) (hk : keyMatches cfg.keys [27] = []) :
